@@ -73,8 +73,8 @@ package flags
 //@   props C02 C04 C07 C01
 //@   let c, n := utf8.DecodeRuneInString(option)
 //@   ensures islong ==> ((arg != nil) == contains(option, "="))
-//@   ensures[C02,C01] !islong ==> ((arg != nil) == (0 < n && n < len(option) && option[n] == '='))
-//@   ensures[C02,C01] !islong && arg != nil ==> len(name) == n
+//@   ensures[C02,C01,C07] !islong ==> ((arg != nil) == (0 < n && n < len(option) && option[n] == '='))
+//@   ensures[C02,C01,C07] !islong && arg != nil ==> len(name) == n
 //@   ensures arg != nil ==> split == "=" && len(option) == len(name) + 1 + len(*arg)
 //@   ensures arg != nil ==> name == option[:len(name)]
 //@   ensures arg != nil ==> option[len(name)] == '='
@@ -356,6 +356,12 @@ package flags
 // (C01: occurrences of a slice or map option accumulate - a bare occurrence of one with an optional argument
 // adds its optional values, it does not throw away what earlier occurrences stored)
 //@   at[C01] call Option.empty #1: !collType(option.value.Type())
+// (C01: the "empty the collection at its first store" marker is lowered only by the store that does the emptying
+// - Option.Set; parseOption itself never disarms it: it is as on entry at the first Set and when no Set happens)
+//@   at[C01,C05] check Option.Set #1: option.clearReferenceBeforeSet == old(option.clearReferenceBeforeSet)
+//@   at[C01,C05] check Option.Set #2: option.clearReferenceBeforeSet == old(option.clearReferenceBeforeSet)
+//@   loop 1 invariant[C01,C05] idx_1 == 0 ==> option.clearReferenceBeforeSet == old(option.clearReferenceBeforeSet)
+//@   ensures[C01,C05] ncalls(Option.Set) == n0 ==> option.clearReferenceBeforeSet == old(option.clearReferenceBeforeSet)
 //@   ensures[C02,C04] ca && argument == nil && !takes && !option.OptionalArgument ==> isTyped(err, ErrExpectedArgument) && ncalls(Option.Set) == n0
 //@   ensures[C04] err != nil ==> is(err, *Error) && as(err, *Error) != nil
 //@   ensures[C03] same(s.args, old(s.args)) || (len(old(s.args)) > 0 && same(s.args, old(s.args)[1:]))
